@@ -35,6 +35,16 @@ type Case struct {
 	UDP     socksrun.Backend   `json:"udp"`
 	ICMP    socksrun.Backend   `json:"icmp"`
 	Obs     *socksrun.Observed `json:"observed,omitempty"`
+	// Warm lists legitimate logins (configuration, user, password) that took
+	// place earlier in the same process; a replay performs them first
+	Warm []Warm `json:"warm,omitempty"`
+}
+
+// Warm is one earlier legitimate login.
+type Warm struct {
+	Cfg  socksrun.AuthCfg `json:"cfg"`
+	User []byte           `json:"user"`
+	Pass []byte           `json:"pass"`
 }
 
 type harness struct {
@@ -54,6 +64,15 @@ func (h *harness) monitor(k Case, o socksrun.Observed, where string) {
 		c.Fail("handler-stuck", "Handle did not return after the client closed the connection", k)
 	}
 	served := len(o.Dials) > 0 || o.UDPAsked > 0 || o.ICMPAsked > 0 || o.UDPCreates > 0 || len(o.ICMPCreates) > 0
+	// the RFC 1929 status reply: success only for a configured pair (checked
+	// on every session, whether or not a command follows)
+	if len(o.Writes) >= 2 && len(o.Writes[0]) == 2 && o.Writes[0][1] == 2 && len(o.Writes[1]) == 2 && o.Writes[1][0] == 1 && o.Writes[1][1] == 0 {
+		u, p, ok := socksrun.Presented(k.Session.Input)
+		if !ok || !k.Cfg.Matches(u, p) {
+			c.Fail("auth-success-for-unconfigured-pair",
+				fmt.Sprintf("%s: the handler answered authentication status 00 to %q/%q, which is not a configured user/password pair (users %s; %s)", where, u, p, describeUsers(k.Cfg), k.Session.Note), k)
+		}
+	}
 	if !k.Cfg.Enabled || !served {
 		return
 	}
@@ -82,7 +101,9 @@ func describeUsers(c socksrun.AuthCfg) string {
 	var parts []string
 	for _, u := range c.Users {
 		k := "unusable"
-		if u.Hash != "" {
+		if u.Hash != "" && !u.HashValid {
+			k = fmt.Sprintf("unusable-hash(%q)", u.Hash)
+		} else if u.Hash != "" {
 			k = "hash"
 		} else if u.Pass != "" {
 			k = "password"
@@ -278,39 +299,60 @@ func (h *harness) runStarted(ac socksrun.AuthCfg, sinkPort int, sink *policy.Sin
 	}
 	try(nil)
 	try(&[2]string{"nobody", "nothing"})
+	usable := func(n string) bool { return n != "" && !strings.Contains(n, ":") }
 	for _, u := range ac.Users {
-		if u.Name == "" || strings.Contains(u.Name, ":") {
+		if !usable(u.Name) {
 			continue
 		}
 		try(&[2]string{u.Name, "wrong-" + u.Pass})
-		if u.Pass != "" {
-			try(&[2]string{u.Name, u.Pass})
-		}
-		if u.Hash != "" {
-			try(&[2]string{u.Name, hashedPasswords[u.Hash]})
-		}
 		try(&[2]string{u.Name, ""})
+		if u.Hash != "" && !u.HashValid {
+			// no password can match an unusable hash
+			try(&[2]string{u.Name, "x"})
+			try(&[2]string{u.Name, u.Hash})
+		}
+	}
+	// a legitimate login, then the same concatenation split elsewhere
+	for _, cr := range rightPairs(ac) {
+		n, p := string(cr.User), string(cr.Pass)
+		if !usable(n) || p == "" {
+			continue
+		}
+		try(&[2]string{n, p})
+		try(&[2]string{n + p[:1], p[1:]})
+		if len(n) > 1 && usable(n[:len(n)-1]) {
+			try(&[2]string{n[:len(n)-1], n[len(n)-1:] + p})
+		}
+		try(&[2]string{n, p + " "})
 	}
 }
 
 // ---------------------------------------------------------------------------
 // generators
 
-var hashedPasswords = map[string]string{} // hash -> password it was made from
-
-func mkHash(pw string) string {
+// hashed builds a user whose password_hash is a real bcrypt hash (minimum
+// cost) of pw.
+func hashed(name, pw string) socksrun.User {
 	h, err := bcrypt.GenerateFromPassword([]byte(pw), bcrypt.MinCost)
 	if err != nil {
 		panic(err)
 	}
-	hashedPasswords[string(h)] = pw
-	return string(h)
+	return socksrun.User{Name: name, Hash: string(h), HashValid: true, HashOf: pw}
 }
 
-func configs(r *vh.Rand) []socksrun.AuthCfg {
-	hAlice := mkHash("alice-secret")
-	hBob := mkHash("b")
-	fixed := []socksrun.AuthCfg{
+// badHash builds a user whose password_hash field holds something bcrypt
+// cannot use: no password can match.
+func badHash(name, hash string) socksrun.User {
+	return socksrun.User{Name: name, Hash: hash}
+}
+
+func configs() []socksrun.AuthCfg {
+	alice := hashed("alice", "alice-secret")
+	bob := hashed("bob", "b")
+	aliceBoth := alice
+	aliceBoth.Pass = "pw"
+	trunc := alice.Hash[:29]
+	return []socksrun.AuthCfg{
 		// the witnesses: authentication enabled, no usable user
 		{Enabled: true},
 		{Enabled: true, Users: []socksrun.User{{Name: "ghost"}}},
@@ -319,15 +361,21 @@ func configs(r *vh.Rand) []socksrun.AuthCfg {
 		{Enabled: false},
 		{Enabled: false, Users: []socksrun.User{{Name: "alice", Pass: "pw"}}},
 		{Enabled: true, Users: []socksrun.User{{Name: "alice", Pass: "pw"}}},
-		{Enabled: true, Users: []socksrun.User{{Name: "alice", Hash: hAlice}}},
-		{Enabled: true, Users: []socksrun.User{{Name: "alice", Pass: "pw"}, {Name: "bob", Hash: hBob}}},              // plaintext user dropped: a hashed user exists
-		{Enabled: true, Users: []socksrun.User{{Name: "alice", Pass: "pw", Hash: hAlice}, {Name: "ghost"}}},          // hash wins over password
-		{Enabled: true, Users: []socksrun.User{{Name: "alice", Pass: "one"}, {Name: "alice", Pass: "two"}}},          // duplicate name: last wins
-		{Enabled: true, Users: []socksrun.User{{Name: "alice", Hash: hAlice}, {Name: "alice", Pass: "later-plain"}}}, // hashed map wins
+		{Enabled: true, Users: []socksrun.User{alice}},
+		{Enabled: true, Users: []socksrun.User{{Name: "alice", Pass: "pw"}, bob}},                           // plaintext user dropped: a hashed user exists
+		{Enabled: true, Users: []socksrun.User{aliceBoth, {Name: "ghost"}}},                                 // hash wins over password
+		{Enabled: true, Users: []socksrun.User{{Name: "alice", Pass: "one"}, {Name: "alice", Pass: "two"}}}, // duplicate name: last wins
+		{Enabled: true, Users: []socksrun.User{alice, {Name: "alice", Pass: "later-plain"}}},                // hashed map wins
 		{Enabled: true, Users: []socksrun.User{{Name: "Alice", Pass: "pw"}, {Name: "alice ", Pass: "pw2"}, {Name: "al\x00ice", Pass: "x"}}},
+		// users "without a usable password": the hash field holds something bcrypt cannot parse
+		{Enabled: true, Users: []socksrun.User{badHash("svc", "!"), badHash("locked", "*"), badHash("cut", trunc), badHash("plain", "secret")}},
+		{Enabled: true, Users: []socksrun.User{bob, badHash("svc", "$2a$10$short"), badHash("new", "$3a$04$"+alice.Hash[7:]), badHash("cost", "$2a$99$"+alice.Hash[7:]),
+			{Name: "both", Pass: "pw", Hash: "x"}}},
+		{Enabled: true, Users: []socksrun.User{badHash("alice", "alice-secret"), alice}}, // duplicate: the later, well-formed entry wins
+		{Enabled: true, Users: []socksrun.User{alice, badHash("alice", "!")}},            // duplicate: the later, unusable entry wins
+		// LAST: a different user list in the same process; every pair accepted earlier must be refused here
+		{Enabled: true, Users: []socksrun.User{hashed("carol", "c-pw")}},
 	}
-	_ = r
-	return fixed
 }
 
 func validFor(ac socksrun.AuthCfg, cs []socksrun.Cred) []socksrun.Cred {
@@ -340,7 +388,103 @@ func validFor(ac socksrun.AuthCfg, cs []socksrun.Cred) []socksrun.Cred {
 	return out
 }
 
-func credsFor(ac socksrun.AuthCfg, r *vh.Rand) []socksrun.Cred {
+// rightPairs lists the pairs the configuration really accepts (last entry of
+// a name wins, hash before password, hashed store before plaintext store).
+func rightPairs(ac socksrun.AuthCfg) []socksrun.Cred {
+	anyHash := false
+	for _, u := range ac.Users {
+		if u.Hash != "" {
+			anyHash = true
+		}
+	}
+	last := map[string]socksrun.User{}
+	var order []string
+	for _, u := range ac.Users {
+		if anyHash != (u.Hash != "") || (u.Hash == "" && u.Pass == "") {
+			continue
+		}
+		if _, ok := last[u.Name]; !ok {
+			order = append(order, u.Name)
+		}
+		last[u.Name] = u
+	}
+	var out []socksrun.Cred
+	for _, n := range order {
+		u := last[n]
+		if n == "" {
+			continue
+		}
+		if u.Hash != "" {
+			if u.HashValid {
+				out = append(out, socksrun.Cred{User: []byte(n), Pass: []byte(u.HashOf)})
+			}
+		} else {
+			out = append(out, socksrun.Cred{User: []byte(n), Pass: []byte(u.Pass)})
+		}
+	}
+	return out
+}
+
+// nearMisses lists wrong credentials that are close to the right pair u/p:
+// the same concatenation split elsewhere, prefixes / suffixes, case
+// variants, trailing NUL / space, empty parts, over-long passwords. few
+// limits the variants with an unknown user name (the hashed store spends a
+// full-cost dummy bcrypt on each of those).
+func nearMisses(u, p string, few bool) []socksrun.Cred {
+	var cs []socksrun.Cred
+	add := func(a, b string) {
+		if a == "" || len(a) > 255 || len(b) > 255 || (a == u && b == p) {
+			return
+		}
+		cs = append(cs, socksrun.Cred{User: []byte(a), Pass: []byte(b)})
+	}
+	s := u + p
+	for i := 1; i <= len(s); i++ {
+		d := i - len(u)
+		if few && !(d == -1 || d == 1 || d == 2 || i == 1 || i == len(s)) {
+			continue
+		}
+		add(s[:i], s[i:]) // boundary-shifted split of the same concatenation
+	}
+	// same user, wrong password
+	if len(p) > 0 {
+		add(u, p[:len(p)-1])
+		add(u, p[1:])
+	}
+	add(u, p+"\x00")
+	add(u, p+" ")
+	add(u, " "+p)
+	add(u, strings.ToUpper(p))
+	add(u, "")
+	add(u, u)
+	add(u, u+p)
+	add(u, p+p)
+	add(u, strings.Repeat("A", 73))      // longer than bcrypt accepts
+	add(u, p+strings.Repeat("\x00", 80)) // right prefix, over-long
+	// near user names, right password
+	add(strings.ToUpper(u), p)
+	add(u+"\x00", p)
+	add(u+" ", p)
+	if !few {
+		add(u[:len(u)-1], p)
+		add(u[1:], p)
+		add(p, u)
+		add(u+u, p)
+	}
+	return cs
+}
+
+// authSession is a complete session: offer username/password, present u/p, then one request.
+func authSession(u, p []byte, cmd byte, note string) socksrun.Session {
+	in := []byte{5, 1, 2, 1, byte(len(u))}
+	in = append(in, u...)
+	in = append(in, byte(len(p)))
+	in = append(in, p...)
+	in = append(in, 5, cmd, 0, 1, 127, 0, 0, 1, 0, 80)
+	return socksrun.Session{Input: in, ExactEnd: true, Note: note}
+}
+
+func credsFor(ac socksrun.AuthCfg) []socksrun.Cred {
 	var cs []socksrun.Cred
 	add := func(u, p string) { cs = append(cs, socksrun.Cred{User: []byte(u), Pass: []byte(p)}) }
 	for _, u := range ac.Users {
@@ -353,8 +497,15 @@ func credsFor(ac socksrun.AuthCfg, r *vh.Rand) []socksrun.Cred {
 			add(strings.ToUpper(u.Name), u.Pass)
 		}
 		if u.Hash != "" {
-			add(u.Name, hashedPasswords[u.Hash])
-			add(u.Name, hashedPasswords[u.Hash]+"x")
+			if u.HashValid {
+				add(u.Name, u.HashOf)
+				add(u.Name, u.HashOf+"x")
+			}
+			add(u.Name, u.Hash) // the stored hash text itself as the password
+			if len(u.Hash) <= 72 {
+				add(u.Name, u.Hash+"!")
+			}
+			add(u.Name, "x")
 		}
 		add(u.Name, "")
 		add(u.Name, "wrong")
@@ -368,9 +519,9 @@ func credsFor(ac socksrun.AuthCfg, r *vh.Rand) []socksrun.Cred {
 			if v.Pass != "" {
 				add(u.Name, v.Pass)
 			}
-			if v.Hash != "" {
-				add(u.Name, hashedPasswords[v.Hash])
-				add("nobody", hashedPasswords[v.Hash])
+			if v.HashValid {
+				add(u.Name, v.HashOf)
+				add("nobody", v.HashOf)
 			}
 		}
 		if u.Name != "" {
@@ -405,22 +556,71 @@ func TestVerif(t *testing.T) {
 			k.Session = socksrun.Session{Input: []byte{5, 1, 0, 5, 1, 0, 1, 127, 0, 0, 1, 0, 80}}
 			k.Plan = socksrun.DialPlan{Kind: "ok", BindIP: []byte{127, 0, 0, 1}, BindPort: 1}
 		}
+		for _, wm := range k.Warm {
+			h.runConfig(wm.Cfg, []Case{{Session: authSession(wm.User, wm.Pass, 1, "warm-up: earlier legitimate login"),
+				Plan: socksrun.DialPlan{Kind: "ok", BindIP: []byte{10, 0, 0, 1}, BindPort: 4242}, UDP: "create-fails", ICMP: "create-fails"}})
+		}
 		h.runConfig(k.Cfg, []Case{k})
 	} else {
-		cfgs := configs(c.Rand)
-		per := c.N(60, 500)
+		cfgs := configs()
+		per := c.N(30, 400)
+		okPlan := socksrun.DialPlan{Kind: "ok", BindIP: []byte{10, 0, 0, 1}, BindPort: 4242}
+		var everAccepted []Warm // pairs some earlier configuration of this process accepts
 		for ci, ac := range cfgs {
 			r := c.Rand.Fork()
-			creds := credsFor(ac, r)
+			creds := credsFor(ac)
+			anyHash := false
+			for _, u := range ac.Users {
+				if u.Hash != "" {
+					anyHash = true
+				}
+			}
 			var cases []Case
+			fixedCase := func(s socksrun.Session) {
+				cases = append(cases, Case{Session: s, Plan: okPlan, UDP: "create-fails", ICMP: "create-fails"})
+			}
 			// fixed witnesses first: no-auth offer + CONNECT / UDP / ICMP
 			for _, cmd := range []byte{1, 3, 4} {
-				in := []byte{5, 1, 0, 5, cmd, 0, 1, 127, 0, 0, 1, 0, 80}
-				cases = append(cases, Case{Session: socksrun.Session{Input: in, ExactEnd: true, Note: "witness-noauth"},
-					Plan: socksrun.DialPlan{Kind: "ok", BindIP: []byte{10, 0, 0, 1}, BindPort: 4242}, UDP: "create-fails", ICMP: "create-fails"})
-				in2 := []byte{5, 2, 0, 2, 5, cmd, 0, 1, 127, 0, 0, 1, 0, 80}
-				cases = append(cases, Case{Session: socksrun.Session{Input: in2, ExactEnd: true, Note: "witness-noauth-first"},
-					Plan: socksrun.DialPlan{Kind: "ok", BindIP: nil, BindPort: 0}, UDP: "create-fails", ICMP: "create-fails"})
+				fixedCase(socksrun.Session{Input: []byte{5, 1, 0, 5, cmd, 0, 1, 127, 0, 0, 1, 0, 80}, ExactEnd: true, Note: "witness-noauth"})
+				fixedCase(socksrun.Session{Input: []byte{5, 2, 0, 2, 5, cmd, 0, 1, 127, 0, 0, 1, 0, 80}, ExactEnd: true, Note: "witness-noauth-first"})
+			}
+			if ac.Enabled {
+				right := rightPairs(ac)
+				// pairs accepted by an earlier user list of this process must be refused unless this list has them too
+				for _, wm := range everAccepted {
+					fixedCase(authSession(wm.User, wm.Pass, 1, "pair accepted by an earlier configuration"))
+					cases[len(cases)-1].Warm = []Warm{wm}
+				}
+				// near misses on a cold start ...
+				for _, cr := range right {
+					for _, nm := range nearMisses(string(cr.User), string(cr.Pass), anyHash)[:3] {
+						fixedCase(authSession(nm.User, nm.Pass, 1, "near miss before any legitimate login"))
+					}
+				}
+				// ... a legitimate login of every configured pair ...
+				for _, cr := range right {
+					for _, cmd := range []byte{1, 3, 4} {
+						fixedCase(authSession(cr.User, cr.Pass, cmd, "legitimate login"))
+					}
+				}
+				// ... and every near miss AFTER it (a remembered success must not widen what is accepted)
+				for _, cr := range right {
+					for _, nm := range nearMisses(string(cr.User), string(cr.Pass), anyHash) {
+						fixedCase(authSession(nm.User, nm.Pass, byte(r.Pick(1, 1, 3, 4)), "near miss after a legitimate login of "+string(cr.User)))
+						cases[len(cases)-1].Warm = []Warm{{Cfg: ac, User: cr.User, Pass: cr.Pass}}
+					}
+				}
+				// users whose hash field is unusable: no password at all may work
+				for _, u := range ac.Users {
+					if u.Hash != "" && !u.HashValid && u.Name != "" {
+						for _, pw := range []string{"", "x", u.Hash, "secret", strings.Repeat("A", 73)} {
+							fixedCase(authSession([]byte(u.Name), []byte(pw), 1, "user with an unusable password_hash"))
+						}
+					}
+				}
+				for _, cr := range right {
+					everAccepted = append(everAccepted, Warm{Cfg: ac, User: cr.User, Pass: cr.Pass})
+				}
 			}
 			for i := 0; i < per; i++ {
 				s := socksrun.Gen(r, socksrun.GenOpts{Creds: creds, Valid: validFor(ac, creds), AuthHeavy: ac.Enabled, NoAuth: !ac.Enabled})
@@ -444,7 +644,7 @@ func TestVerif(t *testing.T) {
 			t.Fatal(err)
 		}
 		defer sink.Close()
-		for _, i := range []int{0, 1, 3, 5, 6, 7} {
+		for _, i := range []int{0, 1, 3, 5, 6, 7, 12, 15} {
 			h.runStarted(cfgs[i], sink.Port, sink)
 		}
 	}
